@@ -270,7 +270,7 @@ pub fn run(run: &mut Run) {
     // ---------------- (ii) every string of length <= 3 over a character alphabet x every
     //                  per-character spelling x every quoting style that can spell it
     run.sub("strings");
-    let alphabet: Vec<char> = vec!['a', '\'', '"', '\\', '\n', '\u{e4}', '\u{1f600}', '?', '`', ' ', 'x', '\0'];
+    let alphabet: Vec<char> = vec!['a', '\'', '"', '\\', '\n', '\u{e4}', '\u{1f600}', '?', '`', ' ', 'x', '\0', '\r'];
     let maxlen = run.pick(2usize, 3usize);
     let n = alphabet.len();
     for len in 0..=maxlen {
